@@ -18,6 +18,15 @@ inductive Members (Dec : Bytes → Option Bytes) : List Bytes → List Bytes →
 def DecodesTo (Dec : Bytes → Option Bytes) (s x : Bytes) : Prop :=
   ∃ ms xs, Members Dec ms xs ∧ s = ms.flatten ∧ x = xs.flatten
 
+/--
+What a history of output operations asks to have written: the segments closed by a `flush` (a flush with
+nothing appended since the last one closes nothing) and the still open segment.
+-/
+def opsSegs : List Bytes → Bytes → List OOp → List Bytes × Bytes
+  | done, cur, [] => (done, cur)
+  | done, cur, OOp.append d :: ops => opsSegs done (cur ++ d) ops
+  | done, cur, OOp.flush :: ops => if cur = [] then opsSegs done [] ops else opsSegs (done ++ [cur]) [] ops
+
 /-- executable version for the toy format: split at the `00` terminators (fuel = length) -/
 def toyDecodeAllAux : Nat → Bytes → Option Bytes
   | 0, [] => some []
